@@ -1,6 +1,7 @@
 #ifndef BINLOG_DETAIL_VECTOR_OUTPUT_STREAM_HPP
 #define BINLOG_DETAIL_VECTOR_OUTPUT_STREAM_HPP
 
+#include <algorithm> // max
 #include <cstdint>
 #include <cstring>
 #include <ios> // streamsize
@@ -85,21 +86,13 @@ public:
 
   RecoverableVectorOutputStream& write(const char* buffer, std::streamsize size)
   {
-    std::uint64_t magic = 0;
     if (_vector.capacity() < _vector.size() + std::size_t(size))
     {
-      // vector will reallocate, clear the magic of the old buffer
-      // to avoid recovering invalid data
-      magic = clearMagic();
-      BINLOG_VERIF_POINT("meta-magic-cleared");
+      grow(_vector.size() + std::size_t(size));
     }
 
-    _vector.insert(_vector.end(), buffer, buffer + size);
-    BINLOG_VERIF_POINT("meta-inserted");
-    if (magic != 0) { setMagic(magic); }
-    BINLOG_VERIF_POINT("meta-magic-set");
+    _vector.insert(_vector.end(), buffer, buffer + size); // does not reallocate
     updateSize();
-    BINLOG_VERIF_POINT("meta-size-updated");
     return *this;
   }
 
@@ -119,6 +112,29 @@ public:
   }
 
 private:
+  /**
+   * Move the content to a larger block.
+   *
+   * At any instant at least one of the old and the new block
+   * is complete and carries the magic number, to remain recoverable:
+   * the new block gets the magic number only after it is complete,
+   * the old block loses it only after that.
+   */
+  void grow(std::size_t minCapacity)
+  {
+    std::uint64_t magic = 0;
+    memcpy(&magic, _vector.data(), sizeof(magic));
+
+    std::vector<char> bigger;
+    bigger.reserve((std::max)(2 * _vector.capacity(), minCapacity));
+    bigger.resize(sizeof(magic));                                              // zero magic
+    bigger.insert(bigger.end(), _vector.begin() + sizeof(magic), _vector.end()); // id, size, content
+    memcpy(bigger.data(), &magic, sizeof(magic));
+
+    clearMagic();
+    _vector.swap(bigger);
+  }
+
   void updateSize()
   {
     const std::uint64_t sz = size();
